@@ -19,16 +19,16 @@ import (
 // <path>.behavior.json: a map command -> Behavior, "*" = default.
 type Behavior struct {
 	Exit         int    `json:"exit"`
-	KillSelf     bool   `json:"kill_self"`     // die by SIGKILL instead of exiting
-	Stdout       string `json:"stdout"`        // literal reply
-	StdoutFill   int64  `json:"stdout_fill"`   // then this many filler bytes
-	Stderr       string `json:"stderr"`        // literal stderr
-	StderrFill   int64  `json:"stderr_fill"`   // then this many filler bytes
-	SleepMS      int    `json:"sleep_ms"`      // sleep before replying
-	IgnoreTERM   bool   `json:"ignore_term"`   // ignore SIGTERM/SIGINT
-	Child        string `json:"child"`         // "hold": spawn a descendant that inherits stdout/stderr and sleeps; "hold2": via an intermediate process
+	KillSelf     bool   `json:"kill_self"`   // die by SIGKILL instead of exiting
+	Stdout       string `json:"stdout"`      // literal reply
+	StdoutFill   int64  `json:"stdout_fill"` // then this many filler bytes
+	Stderr       string `json:"stderr"`      // literal stderr
+	StderrFill   int64  `json:"stderr_fill"` // then this many filler bytes
+	SleepMS      int    `json:"sleep_ms"`    // sleep before replying
+	IgnoreTERM   bool   `json:"ignore_term"` // ignore SIGTERM/SIGINT
+	Child        string `json:"child"`       // "hold": spawn a descendant that inherits stdout/stderr and sleeps; "hold2": via an intermediate process
 	ChildSleepMS int    `json:"child_sleep_ms"`
-	ExitFirst    bool   `json:"exit_first"` // with Child: exit immediately after spawning (else sleep SleepMS first)
+	ExitFirst    bool   `json:"exit_first"`   // with Child: exit immediately after spawning (else sleep SleepMS first)
 	StderrFirst  bool   `json:"stderr_first"` // print stderr BEFORE sleeping (a plugin that reports its error and then hangs)
 }
 
